@@ -257,7 +257,10 @@ fn child(seed: u64, ops: u64, fd: i32) -> i32 {
 fn child_concurrent(seed: u64, ops: u64, nthreads: usize, fd: i32) -> i32 {
     use fork::wr;
     unsafe { libc::signal(libc::SIGBUS, libc::SIG_DFL) };
-    let all = catchable();
+    // Job-control signals are left out here: generating SIGCONT makes the kernel discard every pending stop signal
+    // (TSTP/TTIN/TTOU) of the whole process and vice versa, whatever their handlers are, so with several threads raising
+    // them concurrently a raised signal can legitimately vanish before it is delivered.
+    let all: Vec<c_int> = catchable().into_iter().filter(|s| ![libc::SIGCONT, libc::SIGTSTP, libc::SIGTTIN, libc::SIGTTOU].contains(s)).collect();
     let mut joins = Vec::new();
     for t in 0..nthreads {
         let mine: Vec<c_int> = all.iter().cloned().filter(|s| (*s as usize) % nthreads == t).collect();
